@@ -136,6 +136,42 @@ def ctrl_life(tier, seed):
     return runs, uniq, [(f, c) for f, c, _ in res] + [(tfails, {'ctrl_traces': len(traces)})]
 
 
+def repo_count_traces(tier):
+    """the repository's own tests run on RefSim with harness/counts_plugin.py: every top-level public call on every chi
+    object that reports parameter names is followed by an observation of its counts (Trace_Counts)"""
+    import os
+    import subprocess
+    import sys
+    from . import validate_traces
+    from .common import WORK, VERIF, CHI_SRC
+    out = os.path.join(WORK, 'count-traces-%d.json' % os.getpid())
+    env = dict(os.environ, VERIF_TRACE_OUT=out, PYTHONPATH=VERIF + os.pathsep + CHI_SRC)
+    files = ['chi/tests'] if tier == 'thorough' else ['chi/tests/test_population_models.py', 'chi/tests/test_log_pdfs.py',
+                                                       'chi/tests/test_problems.py', 'chi/tests/test_error_models.py']
+    cmd = [sys.executable, '-m', 'pytest', '-q', '-p', 'no:cacheprovider', '-p', 'harness.counts_plugin'] + files
+    p = subprocess.run(cmd, cwd=CHI_SRC, env=env, stdout=subprocess.PIPE, stderr=subprocess.STDOUT, text=True, timeout=3600)
+    if not os.path.exists(out):
+        raise MachineryError('repository tests produced no count traces:\n' + p.stdout[-2000:])
+    with open(out) as f:
+        traces = json.load(f)
+    os.remove(out)
+    if len(traces) < 5:
+        raise MachineryError('repository tests produced only %d count traces' % len(traces))
+    vres, verdicts = validate_traces.validate_counts([t['trace'] for t in traces], tag='c17n')
+    # binding control: one count off by one must be rejected
+    bad = [dict(e) for e in traces[0]['trace']]
+    bad[len(bad) // 2]['n'] += 1
+    _, cv = validate_traces.validate_counts([bad], tag='c17nc')
+    if cv[0]['clause'] not in ('Agree', 'FailedCallNoEffect'):
+        raise MachineryError('binding control failed: corrupted count trace accepted (%r)' % (cv[0],))
+    run = dict(cfg='Trace_Counts', mode='trace validation: %d traces (one per test class of the repository), %d events' % (
+        len(traces), sum(len(t['trace']) for t in traces)), **_summ(vres))
+    fails = [dict(case=dict(trace=t['name'], events=t['trace'][max(0, v['line'] - 3):v['line']]), clause='Trace:' + v['clause'],
+                  manifestation='rejected', detail=v, features=['trace', 'repo_test', 'counts'])
+             for t, v in zip(traces, verdicts) if v['clause']]
+    return run, fails, len(traces)
+
+
 def repo_ctrl_traces(tier='thorough'):
     """the repository's own controller / inference / predictive tests, run on RefSim with the controller recorder on"""
     import os
@@ -166,6 +202,10 @@ def run(tier, seed):
             v.merge_counters({'ctrl_' + k: n for k, n in cnt.items()})
         if not uniq2 or not v.counters.get('ctrl_evaluations') or not v.counters.get('ctrl_feat_data_set_after_prior'):
             raise MachineryError('vacuous controller life-cycle run')
+        crun, cfails, ntr = repo_count_traces(tier)
+        v.failures(cfails)
+        cov['repository_test_classes_validated_against_Trace_Counts'] = ntr
+        runs2 = runs2 + [crun]
         cov['controller_histories_replayed'] = len(uniq2)
         cov['spec_negative_control'] += '; CtrlLife_asfound.cfg (set_data keeps the prior) refuted by TLC on PriorAgrees'
         # counts and names of all fourteen reducible object classes after every fix / re-fix / release transition: the
